@@ -1,7 +1,7 @@
 (* C03 — Exactly-once publish: no PUBLISH after recorded PUBREC; PUBREL until PUBCOMP.
    Property theorems only (client side, over all reachable states; the broker-side count of
    deliveries is judged on recorded histories by c03_ok). *)
-From MQ Require Import Session Outbound OutboundInv OutboundRefine SessionTheorems.
+From MQ Require Import Session Outbound OutboundInv OutboundRefine SessionTheorems SaveBeforeWrite.
 
 (* Once the PUBREC of sequence number n is recorded, the record under its identifier is the
    PUBREL, not a PUBLISH: what a resend (this process or a restarted one) loads is never the PUBLISH. *)
@@ -193,3 +193,15 @@ Example c03_clean_session_boundary :
   exists w w', wrun (winit 4) clean_trace = Some w /\ wreach w /\
     wrun (session_wiped w) [AReconnect; ABroker] = Some w' /\ w_fwd w' = [0; 0].
 Proof. exact clean_session_restart_duplicates. Qed.
+
+(* the handler of PUBREC, every state, body and world: if it writes anything, the PUBREL record was saved successfully first (first request of the step; everything after it is a connection call) *)
+Theorem c03_pubrec_release_recorded : ltac:(let t := type of on_pubrec_release_recorded in exact t).
+Proof. exact on_pubrec_release_recorded. Qed.
+Check c03_pubrec_release_recorded.
+Print Assumptions c03_pubrec_release_recorded.
+
+(* ... and when that Save is refused nothing is written, the step ends in the store error with pendingAck cleared and Received unchanged *)
+Theorem c03_pubrec_save_refused : ltac:(let t := type of on_pubrec_save_refused in exact t).
+Proof. exact on_pubrec_save_refused. Qed.
+Check c03_pubrec_save_refused.
+Print Assumptions c03_pubrec_save_refused.
